@@ -1,4 +1,7 @@
 import TrionModel.Lemmas.Scope
+import TrionModel.Lemmas.ScopePanic
+import TrionModel.Lemmas.ScopeFrame
+import TrionModel.Lemmas.ScopeRun
 /-!
 # C14 — constant visibility follows file scope
 
@@ -185,6 +188,66 @@ theorem monotone_run (i : Nat) : ∀ (ops : List Op) {s s' : State}, Open s → 
       have hv1 := monotone (fun hf => ho.locals.2 hf) hs i t _ ht ht1 n v hv
       exact monotone_run i ops (open_step ho hs) hr ha.2 _ t' ht1 ht' n v hv1
 
+/-! ## panic freedom — no `no local scope`, `unwrap`, `assert!`, `unreachable!` from `Context::new()`
+
+`Inv s` (`Lemmas/ScopePanic.lean`) is the reachable-state invariant: `Open s`; `local_tasks` is `Some` exactly while a
+file is open and each `PathFrame` saved a task list exactly when it has an outer frame; `path_stack.len()` is the number
+of live frames and frame number `k` carries `count = k`; no table on the stack has a register name as key; every
+`.global` closure in any task list captured a non-register name; and the real global task list (the bottom of the stack
+of task lists) holds only `.du32`s rescheduled with `Realm::Global`. -/
+
+/-- C14.panic_free (invariant)  Every state reachable from `Context::new()` over any op history satisfies `Inv`. -/
+theorem reachable_inv {ops : List Op} {s : State} (h : run init ops = .ok s) : Inv s := by
+  obtain ⟨s', h', i'⟩ := run_ok ops inv_init
+  rw [h] at h'; cases h'; exact i'
+
+/-- C14.panic_free (one step)  From a state satisfying the invariant no op reaches a panic site: `step` never returns
+`no local scope` / `unwrap` / `assert!` / `unreachable!` nor the model's own loop bound, and the invariant holds again. -/
+theorem panic_free_step {s : State} (hi : Inv s) (op : Op) : ∃ s', step s op = .ok s' ∧ Inv s' :=
+  step_ok op hi
+
+/-- C14.panic_free  Over ANY operation history from `Context::new()` — well bracketed or not, with `finalize` anywhere,
+with failed files, with tasks rescheduled through several includers — the model never takes one of its panic outcomes:
+not `panic!("no local scope")` of `get_constant`/`insert_constant`/`defer_constant`/`add_task`, not an `unwrap`
+(`.global`'s `insert_constant(..).unwrap()` / `defer_constant(..).unwrap()`, `local_tasks.replace(..).unwrap()`,
+`local_tasks.as_mut().unwrap()`, `path_stack.pop().unwrap()`), not an `assert!` (`.global`'s `assert!(!inserted)`,
+`assert_eq!(path_stack.len(), count)` of `into_inner`), not an `unreachable!` (the `Reserved` arms of `.import`, `.export`
+and the `.global` closure), and not the loop bound `Panic.fuel` of the model's `while !tasks.is_empty()` loops (2 rounds
+for `assemble`, 3 for `finalize`). -/
+theorem panic_free (ops : List Op) : ∃ s, run init ops = .ok s :=
+  let ⟨s, h, _⟩ := run_ok ops inv_init
+  ⟨s, h⟩
+
+theorem panic_free_ne (ops : List Op) (p : Panic) : run init ops ≠ .error p := by
+  obtain ⟨s, h⟩ := panic_free ops
+  rw [h]; intro e; cases e
+
+/-- the guards of the individual panic sites, read off `Inv`: inside a file both `locals` and `local_tasks` are there;
+`into_inner` finds `path_stack.len() == count ≥ 1`; a name found in a visible table is not a register name -/
+theorem panic_guards {ops : List Op} {s : State} (h : run init ops = .ok s) :
+    (s.frames ≠ [] → s.locals.isSome ∧ s.localTasks.isSome) ∧
+    (∀ f fs, s.frames = f :: fs → s.depth = f.count ∧ s.depth ≠ 0) ∧
+    (∀ n e, s.globals.find n = some e → isReg n = false) ∧
+    (∀ l n e, s.locals = some l → l.find n = some e → isReg n = false) ∧
+    (s.depth = 0 → ∀ t ∈ s.globalTasks, ∃ n c tag, t = .use n c tag true) := by
+  have i := reachable_inv h
+  refine ⟨fun hf => ⟨(i.inFile hf).locals, (i.inFile hf).ltasks⟩, ?_, ?_, ?_, ?_⟩
+  · intro f fs hf
+    have hfr := i.fr
+    rw [hf] at hfr
+    have hd : s.depth = fs.length + 1 := by rw [i.depth, hf]; rfl
+    exact ⟨by rw [hd, hfr.1], by omega⟩
+  · exact fun n e hf => Table.keysOk_found i.vis.kg hf
+  · exact fun l n e hl hf => Table.keysOk_found (i.vis.kl l hl) hf
+  · intro hd t ht
+    have := i.vis.bot (by rw [← i.depth, hd]; exact Nat.zero_le _) t ht
+    cases t with
+    | globalCopy n tag => exact this.elim
+    | use n c tag g =>
+      cases g with
+      | true => exact ⟨n, c, tag, rfl⟩
+      | false => exact this.elim
+
 /-! ## dup_reserved — the five collision classes are diagnosed and leave every table unchanged -/
 
 /-- the state after a fatal diagnostic of statement `tag`: the log grows by one entry, `do_assemble` stops, and
@@ -270,89 +333,21 @@ theorem dup_reserved {s : State} {f : Saved} {fs : List Saved} {n : Bytes} {v : 
 which touches no table.  `l` is the current file's table, `s.globals` its includer's table (the real global table for
 the root file). -/
 
-private theorem set_change (l : Table) (n : Bytes) (v : Option Int) (m : Bytes) :
-    (l.set n v).find m = l.find m ∨ (m = n ∧ (l.set n v).find m = some v) := by
-  by_cases h : n = m
-  · subst h; exact .inr ⟨rfl, Table.find_set_same _ _ _⟩
-  · exact .inl (Table.find_set_other _ _ _ _ h)
-
 /-- C14.isolation (own definitions)  `.const n, v` / `n:` change nothing but the entry `n` of the file's own table, which
 becomes `v`; the includer's table is untouched: a definition is visible only in the file that makes it. -/
 theorem isolation_define {s s' : State} {l : Table} {n : Bytes} {v : Int} {tag : Nat} {r : Option Level}
     (hl : s.locals = some l) (h : stmt s (.const n v tag) = .ok (s', r) ∨ stmt s (.label n v tag) = .ok (s', r)) :
     s'.globals = s.globals ∧
-    ∃ l', s'.locals = some l' ∧ ∀ m, l'.find m = l.find m ∨ (m = n ∧ l'.find m = some (some v)) := by
-  have key : ∀ {s1 : State} {res : Except CErr Bool}, insertConstant s n v .loc = .ok (s1, res) →
-      s1.globals = s.globals ∧
-      ∃ l', s1.locals = some l' ∧ ∀ m, l'.find m = l.find m ∨ (m = n ∧ l'.find m = some (some v)) := by
-    intro s1 res hi
-    obtain ⟨hg, hc⟩ := insertConstant_loc_char hi
-    refine ⟨hg, ?_⟩
-    rcases hc with hc | ⟨l0, hl0, _, hc⟩
-    · exact ⟨l, by rw [hc, hl], fun m => .inl rfl⟩
-    · rw [hl] at hl0; cases hl0
-      exact ⟨_, hc, set_change l n (some v)⟩
-  rcases h with h | h
-  · simp only [stmt] at h
-    unfold doConst at h
-    split at h
-    · cases h
-    all_goals (rename_i hi; cases h; have hk := key hi; exact hk)
-  · simp only [stmt] at h
-    unfold doLabel at h
-    split at h
-    · cases h
-    all_goals (rename_i hi; cases h; have hk := key hi; exact hk)
+    ∃ l', s'.locals = some l' ∧ ∀ m, l'.find m = l.find m ∨ (m = n ∧ l'.find m = some (some v)) :=
+  isolation_define_lem hl h
 
 /-- C14.isolation (downwards only by `.import`)  `.import n` changes nothing but the entry `n` of the file's own table,
 which becomes the includer's entry for `n` (same value, or still unvalued); the includer's table is untouched. -/
 theorem isolation_import {s s' : State} {l : Table} {n : Bytes} {tag : Nat} {r : Option Level}
     (hl : s.locals = some l) (h : stmt s (.import n tag) = .ok (s', r)) :
     s'.globals = s.globals ∧
-    ∃ l', s'.locals = some l' ∧ ∀ m, l'.find m = l.find m ∨ (m = n ∧ l'.find m = s.globals.find n) := by
-  simp only [stmt] at h
-  unfold doImport at h
-  split at h
-  · cases h
-  · cases h; exact ⟨rfl, l, hl, fun m => .inl rfl⟩
-  · rename_i hg
-    have hgf : s.globals.find n = some none := by
-      simp only [getConstant] at hg
-      exact get_deferred (Except.ok.inj hg)
-    have key : ∀ {s1 : State} {res : Except CErr Unit}, deferConstant s n .loc = .ok (s1, res) →
-        s1.globals = s.globals ∧
-        ∃ l', s1.locals = some l' ∧ ∀ m, l'.find m = l.find m ∨ (m = n ∧ l'.find m = s.globals.find n) := by
-      intro s1 res hd
-      obtain ⟨hgl, hc⟩ := deferConstant_loc_char hd
-      refine ⟨hgl, ?_⟩
-      rcases hc with hc | ⟨l0, hl0, _, hc⟩
-      · exact ⟨l, by rw [hc, hl], fun m => .inl rfl⟩
-      · rw [hl] at hl0; cases hl0
-        exact ⟨_, hc, fun m => by rw [hgf]; exact set_change l n none m⟩
-    split at h
-    · cases h
-    · rename_i hd; cases h; have hk := key hd; exact hk
-    · rename_i hd; cases h; have hk := key hd; exact hk
-    · cases h
-  · rename_i v hg
-    have hgf : s.globals.find n = some (some v) := by
-      simp only [getConstant] at hg
-      exact get_found (Except.ok.inj hg)
-    have key : ∀ {s1 : State} {res : Except CErr Bool}, insertConstant s n v .loc = .ok (s1, res) →
-        s1.globals = s.globals ∧
-        ∃ l', s1.locals = some l' ∧ ∀ m, l'.find m = l.find m ∨ (m = n ∧ l'.find m = s.globals.find n) := by
-      intro s1 res hi
-      obtain ⟨hgl, hc⟩ := insertConstant_loc_char hi
-      refine ⟨hgl, ?_⟩
-      rcases hc with hc | ⟨l0, hl0, _, hc⟩
-      · exact ⟨l, by rw [hc, hl], fun m => .inl rfl⟩
-      · rw [hl] at hl0; cases hl0
-        exact ⟨_, hc, fun m => by rw [hgf]; exact set_change l n (some v) m⟩
-    split at h
-    · cases h
-    · rename_i hi; cases h; have hk := key hi; exact hk
-    · rename_i hi; cases h; have hk := key hi; exact hk
-    · cases h
+    ∃ l', s'.locals = some l' ∧ ∀ m, l'.find m = l.find m ∨ (m = n ∧ l'.find m = s.globals.find n) :=
+  isolation_import_lem hl h
 
 /-- C14.isolation (uses read the file's own table)  `.du32 n` never changes a table; and while a file is open its
 immediate evaluation looks `n` up in that file's table only: a valued entry in range is written at once. -/
@@ -373,35 +368,8 @@ theorem frame_export {s s' : State} {l : Table} {n : Bytes} {tag : Nat} {r : Opt
     (hl : s.locals = some l) (h : stmt s (.export n tag) = .ok (s', r)) :
     s'.locals = s.locals ∧ ∀ m, s'.globals.find m = s.globals.find m ∨
       (m = n ∧ (∀ w, s.globals.find n ≠ some (some w)) ∧
-        ∃ v, l.find n = some (some v) ∧ s'.globals.find m = some (some v)) := by
-  simp only [stmt] at h
-  unfold doExport at h
-  split at h
-  · cases h
-  · cases h; exact ⟨rfl, fun m => .inl rfl⟩
-  · cases h; exact ⟨rfl, fun m => .inl rfl⟩
-  · rename_i v hg
-    have hlf : l.find n = some (some v) := by
-      rw [getConstant_loc hl] at hg
-      exact get_found (Except.ok.inj hg)
-    have key : ∀ {s1 : State} {res : Except CErr Bool}, insertConstant s n v .global = .ok (s1, res) →
-        s1.locals = s.locals ∧ ∀ m, s1.globals.find m = s.globals.find m ∨
-          (m = n ∧ (∀ w, s.globals.find n ≠ some (some w)) ∧
-            ∃ v, l.find n = some (some v) ∧ s1.globals.find m = some (some v)) := by
-      intro s1 res hi
-      obtain ⟨hlo, hc⟩ := insertConstant_glob_char hi
-      refine ⟨hlo, fun m => ?_⟩
-      rcases hc with hc | ⟨hun, hc⟩
-      · rw [hc]; exact .inl rfl
-      · rw [hc]
-        rcases set_change s.globals n (some v) m with h1 | ⟨h1, h2⟩
-        · exact .inl h1
-        · exact .inr ⟨h1, hun, v, hlf, h2⟩
-    split at h
-    · cases h
-    · rename_i hi; cases h; have hk := key hi; exact hk
-    · rename_i hi; cases h; have hk := key hi; exact hk
-    · cases h
+        ∃ v, l.find n = some (some v) ∧ s'.globals.find m = some (some v)) :=
+  frame_export_lem hl h
 
 /-- C14.frame (upwards by `.global`, end of file)  the closure scheduled by `.global n` leaves the file's own table
 alone and changes the includer's table at most at `n`, where an unvalued entry receives the file's own value. -/
@@ -409,35 +377,8 @@ theorem frame_global_task {s s' : State} {l : Table} {n : Bytes} {tag : Nat} {r 
     (hl : s.locals = some l) (h : runTask s (.globalCopy n tag) = .ok (s', r)) :
     s'.locals = s.locals ∧ ∀ m, s'.globals.find m = s.globals.find m ∨
       (m = n ∧ (∀ w, s.globals.find n ≠ some (some w)) ∧
-        ∃ v, l.find n = some (some v) ∧ s'.globals.find m = some (some v)) := by
-  simp only [runTask] at h
-  unfold runGlobalCopy at h
-  split at h
-  · cases h
-  · cases h; exact ⟨rfl, fun m => .inl rfl⟩
-  · cases h; exact ⟨rfl, fun m => .inl rfl⟩
-  · rename_i v hg
-    have hlf : l.find n = some (some v) := by
-      rw [getConstant_loc hl] at hg
-      exact get_found (Except.ok.inj hg)
-    have key : ∀ {s1 : State} {res : Except CErr Bool}, insertConstant s n v .global = .ok (s1, res) →
-        s1.locals = s.locals ∧ ∀ m, s1.globals.find m = s.globals.find m ∨
-          (m = n ∧ (∀ w, s.globals.find n ≠ some (some w)) ∧
-            ∃ v, l.find n = some (some v) ∧ s1.globals.find m = some (some v)) := by
-      intro s1 res hi
-      obtain ⟨hlo, hc⟩ := insertConstant_glob_char hi
-      refine ⟨hlo, fun m => ?_⟩
-      rcases hc with hc | ⟨hun, hc⟩
-      · rw [hc]; exact .inl rfl
-      · rw [hc]
-        rcases set_change s.globals n (some v) m with h1 | ⟨h1, h2⟩
-        · exact .inl h1
-        · exact .inr ⟨h1, hun, v, hlf, h2⟩
-    split at h
-    · cases h
-    · rename_i hi; cases h; have hk := key hi; exact hk
-    · rename_i hi; cases h; have hk := key hi; exact hk
-    · cases h
+        ∃ v, l.find n = some (some v) ∧ s'.globals.find m = some (some v)) :=
+  frame_global_task_lem hl h
 
 /-- C14.frame (upwards by `.global`, the statement)  `.global n` changes the file's own table at most at `n` (an absent
 entry becomes "announced") and the includer's table at most at `n`, and only if the includer had no entry: it becomes
@@ -446,106 +387,8 @@ theorem frame_global {s s' : State} {l : Table} {n : Bytes} {tag : Nat} {r : Opt
     (hl : s.locals = some l) (h : stmt s (.global n tag) = .ok (s', r)) :
     (∃ l', s'.locals = some l' ∧ ∀ m, l'.find m = l.find m ∨ (m = n ∧ l.find n = none ∧ l'.find m = some none)) ∧
     (∀ m, s'.globals.find m = s.globals.find m ∨ (m = n ∧ s.globals.find n = none ∧
-      (s'.globals.find m = some none ∨ ∃ v, l.find n = some (some v) ∧ s'.globals.find m = some (some v)))) := by
-  simp only [stmt] at h
-  unfold doGlobal at h
-  split at h
-  · cases h
-  · rename_i hd; cases h
-    have := deferConstant_error hd; subst this
-    exact ⟨⟨l, hl, fun m => .inl rfl⟩, fun m => .inl rfl⟩
-  · rename_i hd; cases h
-    have := deferConstant_error hd; subst this
-    exact ⟨⟨l, hl, fun m => .inl rfl⟩, fun m => .inl rfl⟩
-  · rename_i s1 hd
-    obtain ⟨h1, h2⟩ := deferConstant_glob_char hd
-    have hl1 : s1.locals = some l := by rw [h1, hl]
-    -- the includer's table after the announcement
-    have hg1 : ∀ m, s1.globals.find m = s.globals.find m ∨
-        (m = n ∧ s.globals.find n = none ∧ s1.globals.find m = some none) := by
-      intro m
-      rcases h2 with h2 | ⟨hn, h2⟩
-      · rw [h2]; exact .inl rfl
-      · rw [h2]
-        rcases set_change s.globals n none m with h3 | ⟨h3, h4⟩
-        · exact .inl h3
-        · exact .inr ⟨h3, hn, h4⟩
-    have hg1n : s.globals.find n = none ∨ s1.globals = s.globals := by
-      rcases h2 with h2 | ⟨hn, _⟩
-      · exact .inr h2
-      · exact .inl hn
-    split at h
-    · cases h
-    · -- the file already has a value: exported at once
-      rename_i v hgc
-      have hlf : l.find n = some (some v) := by
-        rw [getConstant_loc hl1] at hgc
-        exact get_found (Except.ok.inj hgc)
-      split at h
-      · cases h
-      · cases h
-      · cases h
-      · rename_i s2 hi; cases h
-        obtain ⟨h3, h4⟩ := insertConstant_glob_char hi
-        refine ⟨⟨l, by rw [h3, hl1], fun m => .inl rfl⟩, fun m => ?_⟩
-        rcases h4 with h4 | ⟨_, h4⟩
-        · rw [h4]
-          rcases hg1 m with h5 | ⟨h5, h6, h7⟩
-          · exact .inl h5
-          · exact .inr ⟨h5, h6, .inl h7⟩
-        · rw [h4]
-          rcases set_change s1.globals n (some v) m with h5 | ⟨h5, h6⟩
-          · rw [h5]
-            rcases hg1 m with h7 | ⟨h7, h8, h9⟩
-            · exact .inl h7
-            · exact .inr ⟨h7, h8, .inl h9⟩
-          · rcases hg1n with hn | hsame
-            · exact .inr ⟨h5, hn, .inr ⟨v, hlf, h6⟩⟩
-            · -- the announcement failed to change the table only if it errored, which is not this branch
-              unfold deferConstant at hd
-              split at hd
-              · cases hd
-              · simp only at hd
-                split at hd
-                · cases hd
-                · rename_i hfn; exact .inr ⟨h5, hfn, .inr ⟨v, hlf, h6⟩⟩
-    · -- no entry yet: announce locally, schedule the copy
-      rename_i hgc
-      have hlf : l.find n = none := by
-        rw [getConstant_loc hl1] at hgc
-        exact get_notFound (Except.ok.inj hgc)
-      split at h
-      · cases h
-      · cases h
-      · rename_i s2 hd2
-        obtain ⟨h3, h4⟩ := deferConstant_loc_char hd2
-        split at h
-        · cases h
-        · rename_i s3 ha; cases h
-          obtain ⟨h5, h6⟩ := addTask_tables ha
-          constructor
-          · rcases h4 with h4 | ⟨l0, hl0, _, h4⟩
-            · exact ⟨l, by rw [h5, h4, hl1], fun m => .inl rfl⟩
-            · rw [hl1] at hl0; cases hl0
-              refine ⟨_, by rw [h5, h4], fun m => ?_⟩
-              rcases set_change l n none m with h7 | ⟨h7, h8⟩
-              · exact .inl h7
-              · exact .inr ⟨h7, hlf, h8⟩
-          · intro m
-            rw [h6, h3]
-            rcases hg1 m with h7 | ⟨h7, h8, h9⟩
-            · exact .inl h7
-            · exact .inr ⟨h7, h8, .inl h9⟩
-    · -- already announced locally: schedule the copy
-      split at h
-      · cases h
-      · rename_i s3 ha; cases h
-        obtain ⟨h5, h6⟩ := addTask_tables ha
-        refine ⟨⟨l, by rw [h5, hl1], fun m => .inl rfl⟩, fun m => ?_⟩
-        rw [h6]
-        rcases hg1 m with h7 | ⟨h7, h8, h9⟩
-        · exact .inl h7
-        · exact .inr ⟨h7, h8, .inl h9⟩
+      (s'.globals.find m = some none ∨ ∃ v, l.find n = some (some v) ∧ s'.globals.find m = some (some v)))) :=
+  frame_global_lem hl h
 
 /-- C14.frame (the other end-of-file task)  a rescheduled `.du32` never changes a table. -/
 theorem frame_use_task {s s' : State} {n : Bytes} {c : Option Int} {tag : Nat} {g : Bool} {r : Option Level}
@@ -559,6 +402,194 @@ own table can differ. -/
 theorem frame_deep {s s' : State} {op : Op} {r : Option Level} (h : stmt s op = .ok (s', r)) :
     s'.frames = s.frames ∧ s'.depth = s.depth :=
   ⟨(eff_stmt h).frames, (eff_stmt h).depth⟩
+
+/-! ## frame — a whole `enter … exit` run with nested includes
+
+`Body` (`Lemmas/ScopeRun.lean`) is an include tree: the body of one file is a sequence of statements and complete
+`.include`s, each with the body of the included file; `Body.flatten` is the op sequence the harness feeds to the model,
+well bracketed by construction; `Body.wf` says the leaves are statements (no stray `enter`/`exit`/`finalize`);
+`Body.names` lists the names the file ITSELF — not the files it includes — exports or declares global. -/
+
+/-- C14.frame (whole include)  A complete `.include` — `enter`, the included file's whole body with arbitrarily nested
+includes, failed files and skipped statements, `exit` with the end-of-file tasks — from a running state of an open file
+whose table is `L`.  With `C` the included file's own table when it is left, the includer's table afterwards is
+`L ∪ {exported/global names with the child's values}`: every entry of `L'` is the entry of `L`, except at names the child
+itself exports or declares global, where an absent or unvalued entry of `L` received the child's value `C[m]` (or an
+absent entry became "announced": a `.global` whose value never arrived).  Nothing below moves: the includer's includer's
+table, the frame stack, the depth and `global_tasks` are exactly as before (`tables s' = L' :: (tables s).tail`), and
+`local_tasks` only received `.du32`s rescheduled by the child. -/
+theorem frame_include {b : Body} (hw : b.wf) {s mid s' : State} {tag : Nat} {L : Table}
+    (hi : Inv s) (hm : s.mode = .running) (hf : s.frames ≠ []) (hL : s.locals = some L)
+    (h1 : run s (.enter tag :: b.flatten) = .ok mid) (h2 : step mid .exit = .ok s') :
+    ∃ C L', mid.locals = some C ∧ s'.locals = some L' ∧
+      (∀ m, L'.find m = L.find m ∨ (m ∈ b.names ∧ (∀ w, L.find m ≠ some (some w)) ∧
+        ((∃ v, C.find m = some (some v) ∧ L'.find m = some (some v)) ∨ (L.find m = none ∧ L'.find m = some none)))) ∧
+      s'.globals = s.globals ∧ s'.frames = s.frames ∧ s'.depth = s.depth ∧ tables s' = L' :: (tables s).tail ∧
+      s'.globalTasks = s.globalTasks ∧
+      (∃ add, s'.localTasks = s.localTasks.map (· ++ add) ∧ ∀ x ∈ add, ∃ n c t, x = .use n c t true) ∧
+      (s'.mode = .running ∨ s'.mode = .stopped .fatal 0) := by
+  obtain ⟨C, hC, ir⟩ := include_nested b (fun i' f' m' h' => body_rel b hw i' f' m' h') hi hf hm h1 h2
+  obtain ⟨L0, L', hL0, hL', hu⟩ := ir.tabs
+  rw [hL] at hL0; cases hL0
+  obtain ⟨lt, add, hlt, hadd, hgu⟩ := ir.ltasks
+  refine ⟨C, L', hC, hL', hu, ir.globals, ir.frames, ir.depth, ?_, ir.gtasks, ⟨add, by rw [hadd, hlt]; rfl, ?_⟩, ir.mode⟩
+  · unfold tables; rw [hL', hL, ir.globals, ir.frames]; rfl
+  · intro x hx
+    have := hgu x hx
+    cases x with
+    | globalCopy n t => exact this.elim
+    | use n c t g =>
+      cases g with
+      | true => exact ⟨n, c, t, rfl⟩
+      | false => exact this.elim
+
+/-- C14.frame (the root file)  The same for a file assembled from outside any file: the "includer's table" is the global
+table, `locals` is `None` again afterwards. -/
+theorem frame_include_root {b : Body} (hw : b.wf) {s mid s' : State} {tag : Nat}
+    (hi : Inv s) (hm : s.mode = .running) (hf : s.frames = [])
+    (h1 : run s (.enter tag :: b.flatten) = .ok mid) (h2 : step mid .exit = .ok s') :
+    ∃ C, mid.locals = some C ∧ s'.locals = none ∧ s'.frames = [] ∧ s'.depth = s.depth ∧ s'.mode = .running ∧
+      (∀ m, s'.globals.find m = s.globals.find m ∨ (m ∈ b.names ∧ (∀ w, s.globals.find m ≠ some (some w)) ∧
+        ((∃ v, C.find m = some (some v) ∧ s'.globals.find m = some (some v)) ∨
+          (s.globals.find m = none ∧ s'.globals.find m = some none)))) ∧
+      ∃ add, s'.globalTasks = s.globalTasks ++ add ∧ ∀ x ∈ add, ∃ n c t, x = .use n c t true := by
+  obtain ⟨C, hC, h3, h4, h5, h6, hu, add, hadd, hgu⟩ := include_root b hw hi hf hm h1 h2
+  refine ⟨C, hC, h5, h3, h4, h6, hu, add, hadd, ?_⟩
+  intro x hx
+  have := hgu x hx
+  cases x with
+  | globalCopy n t => exact this.elim
+  | use n c t g =>
+    cases g with
+    | true => exact ⟨n, c, t, rfl⟩
+    | false => exact this.elim
+
+/-- C14.frame (a file's body, from inside)  Running the body of the current file (or the rest of it) — statements and
+complete nested includes — keeps the frame stack, the depth and `global_tasks`; the file's own table only grows; the
+includer's table (`globals`) changes only at names this file itself exports or declares global, as in `frame_include`. -/
+theorem frame_body {b : Body} (hw : b.wf) {t t' : State} {C G : Table} (hi : Inv t) (hf : t.frames ≠ [])
+    (hm : t.mode = .running ∨ ∃ l, t.mode = .stopped l 0) (hC : t.locals = some C) (hG : t.globals = G)
+    (h : run t b.flatten = .ok t') :
+    ∃ C', t'.locals = some C' ∧ C.le C' ∧
+      (∀ m, t'.globals.find m = G.find m ∨ (m ∈ b.names ∧ (∀ w, G.find m ≠ some (some w)) ∧
+        ((∃ v, C'.find m = some (some v) ∧ t'.globals.find m = some (some v)) ∨
+          (G.find m = none ∧ t'.globals.find m = some none)))) ∧
+      t'.frames = t.frames ∧ t'.depth = t.depth ∧ t'.globalTasks = t.globalTasks := by
+  have br := body_rel b hw hi hf hm h
+  obtain ⟨C0, C', hC0, hC', hle, hu⟩ := br.tabs
+  rw [hC] at hC0; cases hC0
+  subst hG
+  exact ⟨C', hC', hle, hu, br.frames, br.depth, br.gtasks⟩
+
+/-! ## isolation — whole runs: where a value in a file's table can come from
+
+`Up n v b` (`Lemmas/ScopeRun.lean`): a chain of `.export n`/`.global n` edges leads from the file with body `b` down through
+files it includes to a file whose own body defines `n = v` (`.const`/label) — length 0 if `b` defines it itself.
+`Body.imports n b`: the file itself has an `.import n`.  `visible s`: the table an included file sees as its includer's.
+`Reach s0 ctx s`: the files of `ctx` (innermost first, each with the part of its body run so far) are open, entered one
+inside the other from `s0`.  `Lic n v G0 ctx`: the chain condition, by recursion on `ctx`: an `Up` chain starts in the
+innermost file's body so far, or that file has `.import n` and `Lic` holds for its includer (at the time of entry);
+outside any file: the global table had `n = v` at the start. -/
+
+/-- C14.isolation (upwards, whole include)  After a complete `.include` every valued entry `(m, v)` of the includer's
+table was there before, or the included file itself exports / declares global `m` and an `Up` chain of export/global
+edges leads from it down to a file that defines `m = v`: values travel upwards only along such chains. -/
+theorem isolation_include {b : Body} (hw : b.wf) {s mid s' : State} {tag : Nat} {L : Table}
+    (hi : Inv s) (hm : s.mode = .running) (hf : s.frames ≠ []) (hL : s.locals = some L)
+    (h1 : run s (.enter tag :: b.flatten) = .ok mid) (h2 : step mid .exit = .ok s') :
+    ∃ L', s'.locals = some L' ∧ ∀ m v, L'.find m = some (some v) →
+      L.find m = some (some v) ∨ (m ∈ b.names ∧ Up m v b) := by
+  obtain ⟨C, L', hC, hL', hu, _⟩ := frame_include hw hi hm hf hL h1 h2
+  refine ⟨L', hL', fun m v hv => ?_⟩
+  rcases hu m with e | ⟨hn, hun, hc⟩
+  · rw [e] at hv; exact .inl hv
+  · rcases hc with ⟨v', hc1, hc2⟩ | ⟨_, hc2⟩
+    · rw [hc2] at hv; cases hv
+      rcases file_prov b hw hi hm h1 hC m v hc1 with ⟨_, hg⟩ | hup
+      · have : visible s = L := by simp [visible, hL]
+        rw [this] at hg; exact absurd hg (hun v)
+      · exact .inr ⟨hn, hup⟩
+    · rw [hc2] at hv; cases hv
+
+/-- C14.isolation (upwards, the root file)  The same for the global table after a root file. -/
+theorem isolation_include_root {b : Body} (hw : b.wf) {s mid s' : State} {tag : Nat}
+    (hi : Inv s) (hm : s.mode = .running) (hf : s.frames = [])
+    (h1 : run s (.enter tag :: b.flatten) = .ok mid) (h2 : step mid .exit = .ok s') :
+    ∀ m v, s'.globals.find m = some (some v) →
+      s.globals.find m = some (some v) ∨ (m ∈ b.names ∧ Up m v b) := by
+  obtain ⟨C, hC, hl', _, _, _, hu, _⟩ := frame_include_root hw hi hm hf h1 h2
+  intro m v hv
+  have hl : s.locals = none := by
+    cases hl : s.locals with
+    | none => rfl
+    | some l => have := hi.opn.locals.1 (by simp [hl]); exact absurd hf this
+  rcases hu m with e | ⟨hn, hun, hc⟩
+  · rw [e] at hv; exact .inl hv
+  · rcases hc with ⟨v', hc1, hc2⟩ | ⟨_, hc2⟩
+    · rw [hc2] at hv; cases hv
+      rcases file_prov b hw hi hm h1 hC m v hc1 with ⟨_, hg⟩ | hup
+      · have : visible s = s.globals := by simp [visible, hl]
+        rw [this] at hg; exact absurd hg (hun v)
+      · exact .inr ⟨hn, hup⟩
+    · rw [hc2] at hv; cases hv
+
+/-- C14.isolation (a file's own table, whole body)  At any point of a file (after the part `b` of its body, with nested
+includes), every valued entry `(m, v)` of its table is imported — the file has `.import m` and its includer had `m = v`
+when the file was entered — or is the end of an `Up` chain starting in the file: a file sees only what it defines, what it
+imports, and what the files it includes send up. -/
+theorem isolation_file {b : Body} (hw : b.wf) {s mid : State} {tag : Nat} {C : Table} (hi : Inv s)
+    (hm : s.mode = .running) (h1 : run s (.enter tag :: b.flatten) = .ok mid) (hC : mid.locals = some C)
+    (m : Bytes) (v : Int) (hv : C.find m = some (some v)) :
+    (b.imports m ∧ (visible s).find m = some (some v)) ∨ Up m v b :=
+  file_prov b hw hi hm h1 hC m v hv
+
+/-- C14.isolation (provenance, whole run)  At any position of a project — files `ctx` open one inside the other, each
+with the part of its body run so far, started from a state `s0` outside any file — a name has a value in the current
+file's table only via a chain of `.import` edges (upwards through the open includers, each at the time its file was
+entered) followed by a chain of `.export`/`.global` edges (downwards through completed includes) ending at a definition
+of that name with that value, or via `.import` edges all the way up to an entry of the initial global table.  So a name
+defined only in file `F` resolves in a file `G ≠ F` only via such a chain from `G` to `F`. -/
+theorem isolation_chain {s0 s : State} {ctx : List (Nat × Body)} (h0 : Inv s0) (hf0 : s0.frames = [])
+    (hw : ∀ p ∈ ctx, p.2.wf) (hr : Reach s0 ctx s) (n : Bytes) (v : Int)
+    (hv : (visible s).find n = some (some v)) : Lic n v s0.globals ctx :=
+  (reach_lic h0 hf0 n v ctx hw hr).2 hv
+
+/-- … from `Context::new()` the global table is empty: the chain always ends at a definition -/
+theorem isolation_chain_init {s : State} {ctx : List (Nat × Body)} (hw : ∀ p ∈ ctx, p.2.wf)
+    (hr : Reach init ctx s) (n : Bytes) (v : Int) (hv : (visible s).find n = some (some v)) :
+    Lic n v [] ctx :=
+  isolation_chain inv_init rfl hw hr n v hv
+
+/-- C14.isolation (uses, converse of `isolation_use_local`)  Inside a file a `.du32 n` statement leaves the log alone,
+pushes one diagnostic, or writes at once exactly the current file's valued entry for `n` — nothing else is read. -/
+theorem isolation_use_resolves {s s' : State} {l : Table} {n : Bytes} {tag : Nat} {r : Option Level}
+    (hd : s.depth ≠ 0) (hl : s.locals = some l) (h : stmt s (.use n tag) = .ok (s', r)) :
+    s'.log = s.log ∨ (∃ k, s'.log = .diag tag k :: s.log) ∨
+      (∃ v, l.find n = some (some v) ∧ s'.log = .value tag v 0 :: s.log) :=
+  use_resolves hd hl h
+
+/-- C14.isolation (resolution, whole run)  If at some position of a project started from `Context::new()` a `.du32 n`
+statement of the current file writes the value `v` at once, then the chain condition `Lic n v [] ctx` holds: `n`
+resolves only via `.import` edges upwards and `.export`/`.global` edges downwards to a definition `n = v`. -/
+theorem isolation_resolve {s s' : State} {ctx : List (Nat × Body)} (hw : ∀ p ∈ ctx, p.2.wf) (hne : ctx ≠ [])
+    (hr : Reach init ctx s) {n : Bytes} {tag : Nat} {r : Option Level} {v : Int}
+    (h : stmt s (.use n tag) = .ok (s', r)) (hlog : s'.log = .value tag v 0 :: s.log) : Lic n v [] ctx := by
+  have hi := reach_inv inv_init ctx hr
+  have hf : s.frames ≠ [] := by
+    rcases (reach_lic inv_init rfl n v ctx hw hr).1 with h1 | h1
+    · exact absurd h1 hne
+    · exact h1
+  have hd : s.depth ≠ 0 := by
+    rw [hi.depth]; intro h0; exact hf (List.eq_nil_of_length_eq_zero h0)
+  obtain ⟨l, hl⟩ := Option.isSome_iff_exists.1 (hi.inFile hf).locals
+  have hvis : visible s = l := by simp [visible, hl]
+  rcases use_resolves hd hl h with h1 | ⟨k, h1⟩ | ⟨v', hv', h1⟩
+  · rw [h1] at hlog
+    have := congrArg List.length hlog
+    simp at this
+  · rw [h1] at hlog; cases hlog
+  · rw [h1] at hlog; cases hlog
+    exact isolation_chain_init hw hr n v (by rw [hvis]; exact hv')
 
 /-! ## non-vacuity -/
 
@@ -584,5 +615,73 @@ example : ∃ s f fs l, run init [.enter 0, .const x 1 1] = .ok s ∧ s.mode = .
      frames := [{ count := 1, constants := none, tasks := none, tag := 0 }], mode := .running, log := [] },
    { count := 1, constants := none, tasks := none, tag := 0 }, [], [(x, some 1)],
    by rfl, rfl, rfl, rfl, by decide, by decide⟩
+
+/-- panic freedom is not vacuous: histories that do reach the guarded sites run through — `.global` before and after
+the value (the `unwrap`/`assert!` pair), a `.global` closure at the end of a file, a failed child, a `.du32` rescheduled
+twice by a `finalize` inside an open file (the loop takes its second round), an unbalanced `exit` -/
+example : (run init [.enter 0, .enter 1, .global x 2, .use x 3, .const x 7 4, .global (bytesOf "y") 5, .exit,
+      .use x 6, .exit, .finalize]).toOption.map (·.log.reverse) =
+    some [.value 3 7 1, .diag 5 .defLocal, .diag 1 .asmFailed, .done false] := by decide
+
+example : (run init [.enter 0, .global x 1, .use x 2, .enter 3, .import x 4, .finalize, .exit, .exit, .exit,
+      .finalize]).toOption.map (·.log.reverse) =
+    some [.diag 1 .defLocal, .diag 2 .nfGlobal, .done false, .done false] := by decide
+
+example : ∃ s, run init [.enter 0, .enter 1, .global x 2, .use x 3, .const x 7 4, .exit, .exit, .exit, .finalize] = .ok s :=
+  panic_free _
+
+/-- the hypotheses of `frame_include` / `frame_include_root` are satisfiable for EVERY include tree from every reachable
+running state (panic freedom gives the two runs) … -/
+example (b : Body) (tag : Nat) {s : State} (hi : Inv s) :
+    ∃ mid s', run s (.enter tag :: b.flatten) = .ok mid ∧ step mid .exit = .ok s' := by
+  obtain ⟨mid, h1, i1⟩ := run_ok (.enter tag :: b.flatten) hi
+  obtain ⟨s', h2, _⟩ := step_ok .exit i1
+  exact ⟨mid, s', h1, h2⟩
+
+private def y : Bytes := bytesOf "y"
+private def z : Bytes := bytesOf "z"
+
+/-- … and a concrete tree: the child defines `x`, includes a grandchild that exports `y` to the child (not to the
+includer), exports `x`, declares `z` global without ever defining it, and re-exports nothing else: the includer, which had
+announced `x`, ends with `x = 7` from the child, `z` announced, and no `y` -/
+private def child : Body :=
+  .stmt (.const x 7 2) (.incl 10 (.stmt (.const y 5 11) (.stmt (.export y 12) .nil))
+    (.stmt (.export x 3) (.stmt (.global z 4) (.stmt (.use y 5) .nil))))
+
+example : child.wf ∧ child.names = [x, z] := by simp [child, Body.wf, Body.names, Op.isStmt, Op.names]
+
+example : (run init ([.enter 0, .global x 1, .enter 1] ++ child.flatten ++ [.exit])).toOption.map (·.locals) =
+      some (some [(x, some 7), (z, none)]) ∧
+    (run init ([.enter 0, .global x 1, .enter 1] ++ child.flatten ++ [.exit])).toOption.map (·.globals) =
+      some [(x, none)] := by decide
+
+/-- provenance is not vacuous: the root defines `x`, includes a file that defines and exports `y`; a second included
+file (still open) imports `y`: its table has `y = 5`, licensed by the chain import ↑ root ↓ export ↓ definition -/
+private def rootPre : Body :=
+  .stmt (.const x 7 1) (.incl 2 (.stmt (.const y 5 3) (.stmt (.export y 4) .nil)) .nil)
+private def childPre : Body := .stmt (.import y 6) .nil
+private def st (ops : List Op) : State :=
+  match run init ops with
+  | .ok s => s
+  | .error _ => init
+
+example : Reach init [(5, childPre), (0, rootPre)]
+      (st (.enter 0 :: rootPre.flatten ++ .enter 5 :: childPre.flatten)) ∧
+    (visible (st (.enter 0 :: rootPre.flatten ++ .enter 5 :: childPre.flatten))).find y = some (some 5) ∧
+    Lic y 5 [] [(5, childPre), (0, rootPre)] ∧ ¬ Lic x 7 [] [(5, childPre), (0, rootPre)] ∧
+    (∃ s' r, stmt (st (.enter 0 :: rootPre.flatten ++ .enter 5 :: childPre.flatten)) (.use y 9) = .ok (s', r) ∧
+      s'.log = .value 9 5 0 :: (st (.enter 0 :: rootPre.flatten ++ .enter 5 :: childPre.flatten)).log) := by
+  refine ⟨⟨st (.enter 0 :: rootPre.flatten), ⟨init, rfl, rfl, by rfl⟩, by rfl, by rfl⟩, by decide, ?_, ?_,
+    ⟨_, _, by rfl, by rfl⟩⟩
+  · exact .inr ⟨.inl rfl, .inl (.later (.child (by simp [Body.names, Op.names]) (.here ⟨rfl, rfl⟩)))⟩
+  · intro h
+    rcases h with h | ⟨h, _⟩
+    · cases h with
+      | here h => exact h
+      | later h => cases h
+    · rcases h with h | h
+      · have h : y = x := h
+        exact absurd h (by decide)
+      · exact h
 
 end Trion.Scope
